@@ -71,6 +71,13 @@ theorem recv_body_idle (c : Codec) (fuel : Nat) (buf : Bytes) (h : buf.length < 
     Reasm.readFrame c (fuel + 1) buf [] = (none, buf, []) :=
   Reasm.readFrame_idle c fuel buf h
 
+/-- the statements of the receive loop that `recv_body_returns` relies on are present in the current
+    source (regenerated facts): an empty read stores the buffer and returns; `_read_frame` breaks out of
+    its accumulation loop on an empty read -/
+theorem recv_loop_shape :
+    Gen.Comm.hdrReturnsOnEmptyRead = true ∧ Gen.Comm.readFrameShape = true ∧
+    Gen.Comm.connectLoopShape = true ∧ Gen.Comm.chinfoLoopShape = true ∧ Gen.Comm.getAckShape = true := by decide
+
 example : (connect ⟨3, 3, 0⟩ [] .ok).outcome = .connected 3 3 0 ∧ (connect ⟨3, 3, 0⟩ [] .ok).time = 16 := by
   decide +kernel
 example : (connect ⟨2, 3, 0⟩ [.ok, .short] .ok).outcome = .raised .structError := by decide +kernel
